@@ -215,12 +215,12 @@ def engine : Engine DState where
       -- The model's observation is "clean" plus the re-rendered counters (a counter the parser drops or
       -- misreads shows as a difference).
       match impl.splitOn " ## " with
-      | [verdict, rec, wc, ws, callsS, gorsS] =>
+      | [verdict, rec, wc, ws, callsS, gorsS, extraS] =>
         -- wc / ws = the wire taps of the client and of the server (C02, `SessMon.wireMon`); callsS = one
         -- record per finished call (C01 / C04, `SessMon.callMon`); gorsS = per sender goroutine the messages
         -- it issued with the handler run of each (C03, `SessMon.orderMon`)
-        match SessMon.parse rec, [wc, ws].mapM SessMon.parseWire, SessMon.parseCalls callsS, SessMon.parseGors gorsS with
-        | some o, some ts, some calls, some gors =>
+        match SessMon.parse rec, [wc, ws].mapM SessMon.parseWire, SessMon.parseCalls callsS, SessMon.parseGors gorsS, SessMon.parseExtra extraS with
+        | some o, some ts, some calls, some gors, some extra =>
           let pid := ((rec.splitOn " ").filterMap fun t => match t.splitOn "=" with | ["pid", v] => some v | _ => none).headD ""
           -- the harness reports only the clauses of the property under check (`pid`); so do these monitors
           let mine := fun (t : String) => pid == "" || (((t.splitOn ":").headD "").splitOn "+").contains pid
@@ -228,11 +228,13 @@ def engine : Engine DState where
           let lean2 := (ts.zip ["client", "server"]).flatMap fun (t, side) => (SessMon.wireMon t).map (SessMon.WClause.text side)
           let lean14 := (SessMon.callMon calls).map fun (k, c) => SessMon.callText k c
           let lean3 := (SessMon.orderMon gors).map SessMon.orderText
-          let all := ((lean5 ++ lean2 ++ lean14 ++ lean3).filter mine).eraseDups.take 4 ++ (if verdict == "clean" then [] else [verdict])
+          -- extraS = handler runs (C02 once, C05 graceful) and probes after termination (C01), `SessMon.extraMon`
+          let leanX := (SessMon.extraMon extra).map SessMon.EClause.text
+          let all := ((lean5 ++ lean2 ++ lean14 ++ lean3 ++ leanX).filter mine).eraseDups.take 4 ++ (if verdict == "clean" then [] else [verdict])
           -- (the counters and the taps are re-rendered from the parsed record; the call and order sections are echoed)
-          (d, { model := " ## ".intercalate (["clean", SessMon.render o ++ " pid=" ++ pid] ++ ts.map SessMon.renderWire ++ [callsS, gorsS]),
+          (d, { model := " ## ".intercalate (["clean", SessMon.render o ++ " pid=" ++ pid] ++ ts.map SessMon.renderWire ++ [callsS, gorsS, extraS]),
                 violated := if all.isEmpty then none else some (" | ".intercalate all) })
-        | _, _, _, _ => (d, { model := "clean", violated := some (if verdict == "clean" then "LIBDISC unparsable sess record: " ++ impl else verdict) })
+        | _, _, _, _, _ => (d, { model := "clean", violated := some (if verdict == "clean" then "LIBDISC unparsable sess record: " ++ impl else verdict) })
       | verdict :: _ :: _ => (d, { model := "clean", violated := some (if verdict == "clean" then "LIBDISC unparsable sess record: " ++ impl else verdict) })
       | _ => (d, { model := "clean", violated := if impl == "clean" then none else some impl })
     | _ =>
